@@ -41,7 +41,7 @@ MonthCase ==
 SpanCase ==
   \E c \in Classes, r \in {"baseline", "reporting"}, el \in BOOLEAN, ng \in BOOLEAN, st \in Starts, S \in Spans :
      \E k1 \in Counts(S), k2 \in Counts(S), h1 \in {"blockMid", "spread"}, h2 \in {"blockMid", "blockEarly", "spread"}, ld \in {0, 6}, tr \in {0, 5} :
-       /\ S # 400
+       /\ S # 420
        /\ (ld + tr > 0 => r = "baseline" /\ c = "daily" /\ h1 = "blockMid" /\ h2 = "blockMid" /\ el /\ ~ng)
        /\ (r = "reporting" => k1 \in {0, KCrit(S) + 6} /\ ~ng /\ el)       \* usage gaps of a reporting period must not matter
        /\ (c = "billing" => k1 = 0)            \* billing usage is given per period, its gaps are Resample's (C08) question
@@ -50,14 +50,14 @@ SpanCase ==
        /\ (k1 = 0 => h1 = "blockMid") /\ (k2 = 0 => h2 = "blockMid")
        /\ in = [cls |-> c, role |-> r, electric |-> el, negatives |-> ng, start |-> st, span |-> S,
                 omiss |-> Place(S, k1, h1), tmiss |-> Place(S, k2, h2), lead |-> ld, trail |-> tr, mcase |-> FALSE, empty |-> "none"]
-\* a span well over a year (400 days) whose gaps lie in its SECOND year (the last days before the final one)
+\* a span well over a year (420 days) whose gaps lie in its SECOND year (the last days before the final one)
 LateCase ==
-  \E c \in Classes \ {"billing"}, r \in {"baseline", "reporting"}, el \in BOOLEAN, ng \in BOOLEAN : \E k1 \in Counts(400), k2 \in Counts(400) :
-     /\ 400 \in Spans /\ k1 + k2 > 0
-     /\ (r = "reporting" => k1 \in {0, KCrit(400) + 6} /\ ~ng /\ el)
+  \E c \in Classes \ {"billing"}, r \in {"baseline", "reporting"}, el \in BOOLEAN, ng \in BOOLEAN : \E k1 \in Counts(420), k2 \in Counts(420) :
+     /\ 420 \in Spans /\ k1 + k2 > 0
+     /\ (r = "reporting" => k1 \in {0, KCrit(420) + 6} /\ ~ng /\ el)
      /\ (ng => ~el)
-     /\ in = [cls |-> c, role |-> r, electric |-> el, negatives |-> ng, start |-> <<2019, 1, 1>>, span |-> 400,
-              omiss |-> Place(400, k1, "blockLate"), tmiss |-> Place(400, k2, "blockLate"), lead |-> 0, trail |-> 0, mcase |-> FALSE, empty |-> "none"]
+     /\ in = [cls |-> c, role |-> r, electric |-> el, negatives |-> ng, start |-> <<2019, 1, 1>>, span |-> 420,
+              omiss |-> Place(420, k1, "blockLate"), tmiss |-> Place(420, k2, "blockLate"), lead |-> 0, trail |-> 0, mcase |-> FALSE, empty |-> "none"]
 EmptyCase ==
   \E c \in Classes, r \in {"baseline", "reporting"}, e \in {"usage", "temp"}, el \in BOOLEAN :
      /\ 365 \in Spans
